@@ -388,6 +388,10 @@ def shrink_candidates(plan):
                 yield setk("input", "small")
             if o.get("obj", 0) > 0:
                 yield setk("obj", 0)
+            if o.get("extension", 1) > 1:
+                yield setk("extension", 1)
+                if o["extension"] > 2:
+                    yield setk("extension", o["extension"] // 2)
         elif kind == "MERKLE":
             if o["rows"] > 1:
                 yield setk("rows", o["rows"] // 2)
@@ -891,6 +895,7 @@ EXPECTED_PROBES = {
     "C03": ["size<maxDomain", "size==maxDomain", "even_nphase_in_place", "ntt_null_dst_nblock>1", "nphase_clamped", "nblock_clamped", "noop_size0", "noop_ncols0", "team>trip_count", "team==1", "size==1", "fault_free_configuration"],
     "C04": ["size<maxDomain", "intt_last_pass_width1", "intt_last_pass_wider", "intt_null_dst_nblock>1", "nphase_not_dividing_log", "fault_free_configuration"],
     "C05": ["extend_even_nphase_single_block", "extend_N==1", "extend_N==N_ext", "extend_in_place", "size<maxDomain", "fault_free_configuration"],
+    "C19x": [],
     "C08": ["rows==1", "rowlen%8!=0", "rowlen<=4_passthrough", "cols==0", "batch_not_dividing_cols", "batch>=cols", "merkle_nThreads0_after_icv_perturb", "dim>1", "team>trip_count", "fault_free_configuration"],
     "C12": ["team>trip_count", "team==trip_count", "team<trip_count", "team==1", "three_members_in_flight", "shortfall_fired", "limit_capped", "team>=64", "team>64", "main_before_reference"],
     "C17": ["copy_size0", "copy_threads<1", "copy_threads>size", "copy_last_chunk_short", "copy_threads_huge"],
